@@ -9,3 +9,5 @@ for c in "$@"; do
   echo "== $c exit=$code"; echo "$out" | grep -E "^VIOLATION|signature|MACHINERY|KNOWN" | head -8
 done
 git -C /repo checkout -- .
+# rebuild the harness against the restored tree so that no stale binary is left behind
+(cd /verif/harness && CARGO_NET_OFFLINE=true CARGO_TARGET_DIR=/verif/target cargo build --release --offline >/dev/null 2>&1)
